@@ -168,6 +168,16 @@ func (e *Executor) traverse(rt RequestTask) error {
 			// tell the loader we're online now
 			rt.ReconciledLoader.SetRemoteOnline(true)
 
+			// if the request has been cancelled in the meantime, do not contact the remote and do
+			// not wait for it: the manager takes the loader offline only once, right after
+			// cancelling the context, so nobody would ever wake up a wait that starts now
+			select {
+			case <-rt.Ctx.Done():
+				rt.ReconciledLoader.SetRemoteOnline(false)
+				return ipldutil.ContextCancelError{}
+			default:
+			}
+
 			if err := e.startRemoteRequest(rt); err != nil {
 				return err
 			}
